@@ -51,6 +51,42 @@ def mode_machine(p):
     return search(one, 20)
 
 
+def mode_legacy(p):
+    """legacy-format machine files (one group per Gaussian: m_gaussians<i>/m_mean, m_variance, m_variance_thresholds; m_weights;
+    m_n_gaussians) load to the same model as the current-format file of the same machine -- for few and for MANY Gaussians"""
+    import h5py
+    from bob.learn.em import GMMMachine
+    cases = 0
+    for C, D, seed in ((2, 3, 0), (12, 2, 1), (25, 1, 2)):
+        rs = np.random.RandomState(SEED * 7 + seed)
+        m = mk_gmm(C, D, seed)
+        m.variance_thresholds = rs.uniform(1e-3, 1e-2, size=(C, D))
+        m.variances = rs.uniform(0.5, 2.0, size=(C, D))
+        with tempfile.TemporaryDirectory() as d:
+            cur, leg = os.path.join(d, "cur.hdf5"), os.path.join(d, "leg.hdf5")
+            m.save(cur)
+            with h5py.File(leg, "w") as f:
+                f["m_n_gaussians"] = np.array([C])
+                f["m_weights"] = m.weights.reshape(1, C)
+                for i in range(C):
+                    g = f.create_group("m_gaussians%d" % i)
+                    g["m_mean"], g["m_variance"], g["m_variance_thresholds"] = m.means[i], m.variances[i], np.broadcast_to(m.variance_thresholds, (C, D))[i]
+            a, b = GMMMachine.from_hdf5(cur), GMMMachine.from_hdf5(leg)
+            r = GMMMachine(3)
+            r.load(leg)
+        x = rs.normal(size=(5, D)) * 2 + 3
+        cases += 1
+        for nm, mach in (("from_hdf5", b), ("load", r)):
+            for f_ in ("weights", "means", "variances"):
+                if not np.array_equal(np.asarray(getattr(a, f_)), np.asarray(getattr(mach, f_))):
+                    return {"reproduced": True, "cases": cases, "input": {"n_gaussians": C, "n_features": D, "via": nm}, "field": f_,
+                            "observed": np.asarray(getattr(mach, f_)).tolist(), "expected": np.asarray(getattr(a, f_)).tolist(),
+                            "what": "a legacy-format file with %d Gaussians loads (%s) to %s that differ from the current-format counterpart" % (C, nm, f_)}
+            if not np.array_equal(a.log_likelihood(x), mach.log_likelihood(x)):
+                return {"reproduced": True, "cases": cases, "input": {"n_gaussians": C, "via": nm}, "what": "the machine loaded from the legacy file scores differently"}
+    return {"reproduced": False, "cases": cases}
+
+
 def mode_none_limit(p):
     from bob.learn.em import GMMMachine
     if p.get("skip_known"):
@@ -86,4 +122,4 @@ def mode_stats(p):
     return search(one, 20)
 
 
-main({"machine": mode_machine, "stats": mode_stats, "none_limit": mode_none_limit})
+main({"machine": mode_machine, "stats": mode_stats, "none_limit": mode_none_limit, "legacy": mode_legacy})
